@@ -432,6 +432,19 @@ def odd_signature_cases(res):
     ns = {'__init__': _shared_init} if kind == 'init' else {'__new__': _shared_new}
     return type('Alias_' + kind, (), ns)
 
+  def mk_new_below_init():
+    class CoopBase:
+      def __init__(self, *args, **kwargs):
+        seen.append(('CoopBase.__init__', args, tuple(sorted(kwargs.items()))))
+
+    class Widget(CoopBase):
+      def __new__(cls, size, colour=R):
+        seen.append(('Widget.__new__', size, colour))
+        o = super().__new__(cls)
+        o.size, o.colour = size, colour
+        return o
+    return Widget
+
   def has_marker(x):
     if x is R:
       return True
@@ -446,6 +459,8 @@ def odd_signature_cases(res):
       ('posonly_kwargs_other_name', lambda: tag, {}, lambda f: f('input', colour=R), ['colour']),
       ('posonly_two_kwargs_same_name', lambda: tag2, {}, lambda f: f('input', 'second', other=R), ['other']),
       ('posonly_rest_marker', lambda: tag2, {}, lambda f: f('input', 'second', R), None),
+      ('own_new_below_base_init_unfilled', mk_new_below_init, {}, lambda f: f(3), ['colour']),
+      ('own_new_below_base_init_marker', mk_new_below_init, {}, lambda f: f(R, 'red'), ['size']),
       ('init_alias_unfilled', lambda: mk_alias('init'), {}, lambda f: f(1), ['b']),
       ('init_alias_caller_marker', lambda: mk_alias('init'), {}, lambda f: f(1, R), ['b']),
       ('init_alias_filled', lambda: mk_alias('init'), {'b': 7}, lambda f: f(1), 'FILLED'),
@@ -459,7 +474,7 @@ def odd_signature_cases(res):
     res.case(tuple(desc), True)
     try:
       target = mk()
-      if name.startswith(('init_alias', 'new_alias')):
+      if name.startswith(('init_alias', 'new_alias', 'own_new')):
         cf = gin.configurable('c10o_' + name, module='c10')(target)       # (decorating in place)
       else:
         cf = gin.external_configurable(target, name='c10o_' + name, module='c10')
@@ -486,6 +501,52 @@ def odd_signature_cases(res):
                     (desc, missing, out, got, seen), desc)
     else:
       res.w('odd_calling_conventions')
+  harness.hard_reset()
+
+
+def history_cases(res):
+  """The binding that fills a REQUIRED parameter is made late: after finalize, inside unlock_config, after the
+  configurable was already called (and failed cleanly) on the locked configuration, in this or another scope."""
+  seen = []
+
+  def train(steps=R, lr=R):
+    seen.append((steps, lr))
+    return (steps, lr)
+  for scope in ('', 's'):
+    for marker_by in ('signature', 'positional', 'keyword'):
+      desc = ['history', scope, marker_by]
+      harness.hard_reset()
+      del seen[:]
+      res.case(tuple(desc), True)
+      cf = gin.external_configurable(train, name='c10h_train', module='c10')
+      gin.bind_parameter('c10.c10h_train.lr', 0.5)
+      gin.finalize()
+      import contextlib  # pylint: disable=import-outside-toplevel
+
+      def call():
+        with (gin.config_scope(scope) if scope else contextlib.nullcontext()):
+          return {'signature': lambda: cf(), 'positional': lambda: cf(R), 'keyword': lambda: cf(steps=R)}[marker_by]()
+      try:
+        call()
+        first = 'ok'
+      except RuntimeError as e:
+        first = 'RuntimeError' if "'steps'" in str(e) and "'lr'" not in str(e) else 'wrong message: %s' % e
+      except Exception as e:  # pylint: disable=broad-except
+        first = repr(e)
+      with gin.unlock_config():
+        gin.bind_parameter((scope, 'c10.c10h_train', 'steps'), 100)
+      try:
+        second = call()
+      except Exception as e:  # pylint: disable=broad-except
+        second = repr(e)
+      res.outcome('history:%s' % first)
+      if first != 'RuntimeError' or seen[:-1]:
+        res.violation('missing_required_names', '%r: call on the locked configuration without a binding for steps: %s, body '
+                      'saw %r' % (desc, first, seen), desc)
+      elif second != (100, 0.5):
+        res.violation('call_failed', '%r: after binding steps=100 inside unlock_config the call gives %r' % (desc, second), desc)
+      else:
+        res.w('late_binding_fills_required')
   harness.hard_reset()
 
 
@@ -524,6 +585,8 @@ def run_shard(i, tier):
     builtin_cases(res)
   if i == 2:
     odd_signature_cases(res)
+  if i == 3:
+    history_cases(res)
   harness.hard_reset()
   return res
 
@@ -538,6 +601,9 @@ def replay(desc):
     return res
   if desc[0] == 'odd':
     odd_signature_cases(res)
+    return res
+  if desc[0] == 'history':
+    history_cases(res)
     return res
   sname, mitems, npos, extra, bn, bscope, active = desc
   run_case(sname, dict((k, v) for k, v in mitems), npos, extra, bn, bscope, active, res)
